@@ -385,6 +385,9 @@ var fixedPrograms = []struct {
 	{"zero-width-garbler", "package main\n\nfunc main(g [0]byte, e uint8) (uint8, bool) {\n\treturn e ^ 0x5a, e > 7\n}\n", nil, []string{"0", "0"}, []string{"200", "5"}},
 	{"array-concat", "package main\n\nfunc main(a [4]uint8, b [4]uint8) ([8]uint8, uint32) {\n\tvar t uint32 = uint32(b[0]) + 7\n\tc := a + b\n\tt = t * 3\n\treturn c, t\n}\n", nil, []string{"0x01020304", "0xfffefdfc"}, []string{"0x05060708", "0x00010203"}},
 	{"array-concat-reuse", "package main\n\nfunc main(a [2]uint8, b [2]uint8) ([4]uint8, [4]uint8, uint16) {\n\tc := a + b\n\td := b + a\n\tx := uint16(a[0]) * uint16(b[1])\n\ty := x + uint16(c[3])\n\treturn c, d, y\n}\n", nil, []string{"0x0102", "0xfffe"}, []string{"0x0506", "0x0001"}},
+	{"index-const-offset", "package main\n\nfunc get(p []uint8, i uint1) uint8 {\n\treturn p[i]\n}\n\nfunc f(p *[8]uint8, i uint1) (uint8, uint8, uint8) {\n\treturn get(p[4:6], i), get(p[6:8], i), get(p[0:2], i)\n}\n\nfunc main(a [8]uint8, b uint1) (uint8, uint8, uint8) {\n\treturn f(&a, b)\n}\n", nil, []string{"0x0001020304050607", "0x0001020304050607", "0xa0a1a2a3a4a5a6a7"}, []string{"1", "0", "1"}},
+	{"native-hamming", "package main\n\nfunc main(a, b uint32) uint32 {\n\treturn native(\"hamming\", a, b)\n}\n", nil, []string{"0xdeadbeef", "0", "0xffffffff"}, []string{"0x11111111", "0", "0"}},
+	{"native-hamming-64-8", "package main\n\nfunc main(a uint64, b uint8) (uint64, uint8) {\n\treturn native(\"hamming\", a, uint64(b)), native(\"hamming\", uint8(a), b)\n}\n", nil, []string{"0xdeadbeefcafebabe", "0xff"}, []string{"0x11", "0"}},
 	{"loop", "package main\n\nfunc main(a, b uint8) uint8 {\n\tvar sum uint8\n\tfor i := 0; i < 4; i++ {\n\t\tt := (a >> i) & 1\n\t\tsum = sum + t*b\n\t}\n\treturn sum\n}\n", nil, []string{"13", "255"}, []string{"7", "3"}},
 }
 
